@@ -9,7 +9,9 @@ open Girc
 namespace LifeOps
 open Girc.Model.Life
 
-/-- Action tokens: uc uq us<id> ps<id> pe<hextext> pc rt re rp rc et ef st sf sc pt pn mw mc mt md mf -/
+/-- Action tokens: uc uq us<id> ps<id> pe<hextext> pc rt re rp rc et ef st sf sc pt pn pd mw mc mt md mf
+    (`pd`, also spelled `pingDisabled`: pingLoop's early `return nil` when `Config.PingDelay <= 0`).
+    Configuration tokens, only at the head of the schedule: `cfg:pingoff` starts the run with pings disabled. -/
 def parseAct (tok : String) (i : Nat) : Option Act :=
   if tok = "uc" then some .userClose else if tok = "uq" then some .userQuit
   else if tok = "pc" then some .peerClose
@@ -18,6 +20,7 @@ def parseAct (tok : String) (i : Nat) : Option Act :=
   else if tok = "et" then some .execTake else if tok = "ef" then some .execFlush
   else if tok = "st" then some .sendTake else if tok = "sf" then some .sendFail else if tok = "sc" then some .sendCancel
   else if tok = "pt" then some .pingTimeout else if tok = "pn" then some .pingCancel
+  else if tok = "pd" || tok = "pingDisabled" then some .pingDisabled
   else if tok = "mw" then some .mainWait else if tok = "mc" then some .mainClosedEv
   else if tok = "mt" then some .mainTeardown else if tok = "md" then some .mainDisc else if tok = "mf" then some .mainFinish
   else if tok.startsWith "us" then (tok.drop 2).toString.toNat?.map .userSend
@@ -32,6 +35,10 @@ def showErr : Option Err → String
   | some .pingTimeout => "ping"
   | some .parse => "parse"
 
+def showLoop : Loop → String
+  | .running => "running"
+  | .exited r => showErr r
+
 def summary (s : LState) : String :=
   let res := match s.main with
     | .returned r => showErr r
@@ -39,7 +46,10 @@ def summary (s : LState) : String :=
   let em := ",".intercalate (s.emitted.map fun | .closed => "C" | .disconnected => "D")
   s!"res={res} emitted={em} delivered={s.delivered.length} errdelivered={bl (s.delivered.any (·.isError))} " ++
   s!"written={s.written.length} quitwritten={bl (s.written.contains .quit)} sock={bl s.sockClosed} conn={bl s.connNil} " ++
-  s!"rx={s.rx.length} tx={s.tx.length} measure={measure s}"
+  s!"rx={s.rx.length} tx={s.tx.length} measure={measure s} " ++
+  -- (appended after the fields older callers match on)
+  s!"pingoff={bl s.pingOff} ping={showLoop s.ping} cancelled={bl s.groupCancelled} waiting={bl (s.main == .waiting)} " ++
+  s!"cause={bl (s.closeRequested || s.peerClosed || (firstError s.delivered).isSome || s.parseErrSeen || s.pingTimedOut || s.writeFailed)}"
 
 def runToks (s : LState) : List String → Nat → Except String LState
   | [], _ => .ok s
@@ -49,6 +59,21 @@ def runToks (s : LState) : List String → Nat → Except String LState
     | some a => match step s a with
       | none => .error s!"stuck@{i} {t}"
       | some s' => runToks s' rest (i + 1)
+
+/-- Leading `cfg:` tokens select the configuration of the run; the rest is the schedule.
+    Token indices in error messages count from the first schedule token. -/
+def splitCfg : List String → Bool → Except String (Bool × List String)
+  | t :: rest, off =>
+    if t = "cfg:pingoff" then splitCfg rest true
+    else if t = "cfg:pingon" then splitCfg rest false
+    else if t.startsWith "cfg:" then .error s!"bad-config {t}"
+    else .ok (off, t :: rest)
+  | [], off => .ok (off, [])
+
+def runSchedule (toks : List String) : Except String LState :=
+  match splitCfg toks false with
+  | .error e => .error e
+  | .ok (off, sched) => runToks (begin [] [] 25 off) sched 0
 
 end LifeOps
 
@@ -93,7 +118,7 @@ def handleConc (op : String) (args : List String) : Option String :=
   match op, args with
   | "life.run", [acts] =>
     let toks := if acts = "_" then [] else acts.splitOn ","
-    match LifeOps.runToks (Model.Life.begin [] []) toks 0 with
+    match LifeOps.runSchedule toks with
     | .ok s => some (LifeOps.summary s)
     | .error e => some e
   | "stime", [v] => do
